@@ -78,13 +78,13 @@ func (g *gen) pick(l []string) string { return l[g.r.Intn(len(l))] }
 
 var namePool = []string{"v", "ver", "verbose", "version", "V", "f", "file", "force", "o", "out", "output", "é", "日本",
 	"x", "y", "z", "n", "num", "name", "l", "list", "m", "map", "i", "int", "inc", "fl", "float", "deb", "debug", "dbg",
-	"q", "quiet", "a", "ab", "abc", "t", "tag", "p", "profile", "é1", "ñ", "ü"}
+	"q", "quiet", "a", "ab", "abc", "t", "tag", "p", "profile", "é1", "ñ", "ü", "日本語設定", "h", "?"}
 
 var cmdPool = []string{"cmd", "run", "list", "show", "exec", "wrap", "sub", "get", "set", "c", "v", "file", "log", "db", "helper"}
 
 var wordPool = []string{"foo", "bar", "baz", "", "a b", "a=b", "k=v=w", "1", "2", "-1", "+5", "010", "1..3", "3..1", "0x10", "1_0",
 	"1.5", "1e3", "1e309", "NaN", "inf", "0x1p-2", " 5", "5 ", "true", "false", "-", "x\ny", "é", "日本語", "hello", "=", "=x", "k=",
-	"9223372036854775807", "-9223372036854775808", "9223372036854775808", "9223372036854775806..9223372036854775807", "a,b", "0.1", "%s", "100%"}
+	"9223372036854775807", "-9223372036854775808", "9223372036854775808", "9223372036854775806..9223372036854775807", "a,b", "0.1", "%s", "100%", ":8080", ":", "::1", "/x", "=:y", ":=z", "../src", "a..b"}
 
 var envNames = []string{"VH_A", "VH_B", "VH_C", "VH_D"}
 
@@ -185,13 +185,17 @@ func (g *gen) genOpt(pi *progInfo, n *nodeInfo, used map[string]bool, env *[]Env
 			used[a] = true
 			al = append(al, a)
 		}
-		if len(al) > 0 {
+		if len(al) > 1 && g.p(0.5) {
+			// two separate Alias modifiers on one option: they accumulate
+			mods = append(mods, Mod{M: "alias", Strs: al[:1]}, Mod{M: "alias", Strs: al[1:]})
+			oi.keys = append(oi.keys, al...)
+		} else if len(al) > 0 {
 			mods = append(mods, Mod{M: "alias", Strs: al})
 			oi.keys = append(oi.keys, al...)
 		}
 	}
 	if g.p(0.4) {
-		mods = append(mods, Mod{M: "desc", Strs: []string{[]string{"describes it", "line one\nline two", "é desc", "a very long description that goes on and on to test the wrapping of things in the help output"}[g.r.Intn(4)]}})
+		mods = append(mods, Mod{M: "desc", Strs: []string{[]string{"describes it", "line one\nline two", "é desc", "a very long description that goes on and on to test the wrapping of things in the help output", "100% sure %s %d", "date as %Y-%m-%d"}[g.r.Intn(6)]}})
 	}
 	if g.p(g.f.Required) {
 		if g.p(0.4) {
@@ -269,7 +273,7 @@ func (g *gen) genProgram(c *Case) *progInfo {
 		script = append(script, DefOp{Op: "mapkeys", H: 0})
 	}
 	if g.p(0.3) {
-		script = append(script, DefOp{Op: "self", H: 0, Name: []string{"prog", "tool", "my prog"}[g.r.Intn(3)], Desc: []string{"", "does things", "multi\nline"}[g.r.Intn(3)]})
+		script = append(script, DefOp{Op: "self", H: 0, Name: []string{"prog", "tool", "my prog"}[g.r.Intn(3)], Desc: []string{"", "does things", "multi\nline", "100%!"}[g.r.Intn(4)]})
 		c.Root = "prog" // Self overrides below anyway
 	}
 	used := map[int]map[string]bool{0: {}}
@@ -339,7 +343,7 @@ func (g *gen) genProgram(c *Case) *progInfo {
 				n := &nodeInfo{h: h, name: name, parent: parent.h, ro: parent.ro}
 				pi.nodes = append(pi.nodes, n)
 				parent.cmds = append(parent.cmds, h)
-				script = append(script, DefOp{Op: "cmd", H: parent.h, Name: name, Desc: []string{"", "a command", "multi\nline desc", "é cmd"}[g.r.Intn(4)]})
+				script = append(script, DefOp{Op: "cmd", H: parent.h, Name: name, Desc: []string{"", "a command", "multi\nline desc", "é cmd", "50% off %v"}[g.r.Intn(5)]})
 				used[h] = map[string]bool{}
 				wrapper := g.p(0.12)
 				if wrapper {
@@ -349,7 +353,11 @@ func (g *gen) genProgram(c *Case) *progInfo {
 						script = append(script, DefOp{Op: "umode", H: h, N: 2})
 					}
 				} else {
+					forget := g.p(0.25) // let the child's own keys collide with keys handed down later or earlier
 					for k := range used[parent.h] {
+						if forget && g.p(0.5) {
+							continue
+						}
 						used[h][k] = true
 					}
 					n.opts = append(n.opts, parent.opts...)
@@ -386,6 +394,20 @@ func (g *gen) genProgram(c *Case) *progInfo {
 	script = append(script, late...)
 	if helpName != "" && !helpEarly {
 		addHelp()
+	}
+	if len(pi.nodes) > 1 && g.p(0.25) {
+		// a sub-command created under an existing command after everything else was defined: it copies
+		// that command's table as it is now (including keys overwritten by later definitions above it)
+		par := pi.nodes[1+g.r.Intn(len(pi.nodes)-1)]
+		if par.name != "" && !par.wrapper {
+			h := len(pi.nodes)
+			n := &nodeInfo{h: h, name: "latesub", parent: par.h, ro: par.ro}
+			n.opts = append(n.opts, par.opts...)
+			pi.nodes = append(pi.nodes, n)
+			par.cmds = append(par.cmds, h)
+			script = append(script, DefOp{Op: "cmd", H: par.h, Name: "latesub"})
+			script = append(script, DefOp{Op: "fn", H: h, N: h})
+		}
 	}
 	if len(late) > 0 && g.p(0.5) && len(pi.nodes) > 1 {
 		// a later NewCommand re-copies options
@@ -429,7 +451,7 @@ var utf8Edges = []byte{0x7f, 0x80, 0xbf, 0xc0, 0xc1, 0xc2, 0xdf, 0xe0, 0xa0, 0x9
 func (g *gen) randBytes() string {
 	n := g.r.Intn(6)
 	bs := make([]byte, n)
-	alphabet := []byte{'-', '-', '=', 'a', 'v', 0xc3, 0xa9, 0xff, '\n', ' ', 0xe6, 0x97, 0xa5, '1', '.', 0, '\t'}
+	alphabet := []byte{'-', '-', '=', 'a', 'v', 0xc3, 0xa9, 0xff, '\n', ' ', 0xe6, 0x97, 0xa5, '1', '.', 0, '\t', ':', '/', '='}
 	if g.r.Intn(4) == 0 {
 		alphabet = utf8Edges
 	}
@@ -508,7 +530,12 @@ func (g *gen) genArgs(pi *progInfo) []string {
 				}
 			}
 			if attached {
-				tok += "=" + g.valueFor(oi, g.p(0.7))
+				v := g.valueFor(oi, g.p(0.7))
+				if g.p(0.12) {
+					// separator-like bytes right after the `=`
+					v = []string{":", "=", "-", "--", "/", " ", "\n", ":="}[g.r.Intn(8)] + v
+				}
+				tok += "=" + v
 			}
 			args = append(args, tok)
 			// following values
@@ -530,7 +557,12 @@ func (g *gen) genArgs(pi *progInfo) []string {
 			args = append(args, nd.name)
 			cur = nd
 		case w < 4.0 && pi.help != "":
-			args = append(args, []string{"--" + pi.help, pi.help, "-" + pi.help, "--" + prefixOf(g, pi.help), "-?", "-h"}[g.r.Intn(6)])
+			hk := g.r.Intn(6)
+			args = append(args, []string{"--" + pi.help, pi.help, "-" + pi.help, "--" + prefixOf(g, pi.help), "-?", "-h"}[hk])
+			if hk == 1 && len(cur.cmds) > 0 && g.p(0.6) {
+				// help <topic>
+				args = append(args, pi.nodes[cur.cmds[g.r.Intn(len(cur.cmds))]].name)
+			}
 		case w < 5.2:
 			args = append(args, g.pick(wordPool))
 		case w < 5.6 && len(allCmdNames) > 0:
@@ -549,7 +581,32 @@ func (g *gen) genArgs(pi *progInfo) []string {
 	if args == nil {
 		args = []string{}
 	}
+	for i, a := range args {
+		if hugeRange(a) {
+			// an int range of astronomic size is materialised element by element by the library (and
+			// by the model): neither side terminates in practice, so such inputs are not generated
+			args[i] = "1..3"
+		}
+	}
 	return args
+}
+
+// hugeRange reports whether some suffix of the token reads as an ascending int range `a..b` with more
+// than a million elements.
+func hugeRange(tok string) bool {
+	for i := 0; i < len(tok); i++ {
+		s := tok[i:]
+		if !strings.Contains(s, "..") {
+			return false
+		}
+		n := strings.SplitN(s, "..", 2)
+		a, err1 := strconv.Atoi(n[0])
+		b, err2 := strconv.Atoi(n[1])
+		if err1 == nil && err2 == nil && a < b && (float64(b)-float64(a)) > 1e6 {
+			return true
+		}
+	}
+	return false
 }
 
 func (g *gen) genCompLine(pi *progInfo) string {
